@@ -97,8 +97,10 @@ def add_exact(a, b):
     return s
 
 
-def add_check(a, b, r):
-    s = add_exact(a, b)
+def add_check(a, b, r, s=None):
+    """s: the value of add_exact(a, b) if the caller already has it"""
+    if s is None:
+        s = add_exact(a, b)
     if s is None:
         return None
     bad = []
@@ -121,8 +123,10 @@ def mul_exact(a, b):
     return p
 
 
-def mul_check(a, b, r):
-    p = mul_exact(a, b)
+def mul_check(a, b, r, p=None):
+    """p: the value of mul_exact(a, b) if the caller already has it"""
+    if p is None:
+        p = mul_exact(a, b)
     if p is None:
         return None
     vr = sp_value(r)
